@@ -400,15 +400,15 @@ theorem evalDict_ok (cfg : Cfg) (fns : UserFns) (env1 : List (String × PV)) (ds
             = some (if dv.2.isUnset then PV.unset else argObj fns dv.2))
     (hf : ∀ d ∈ ds, ∀ f, cfg.serOfType (ofTypeRef d.type) = some f → PyCall.lookup f env1 = none)
     (hc : ∀ dv ∈ ds.zip vs, ∀ f, cfg.serOfType (ofTypeRef dv.1.type) = some f → ∃ sc j, dv.2 = .custom sc j) :
-    ∃ calls, evalDict fns env1 (ds.map (fun d => (d.name, dvP cfg d)))
-      = .ok (dictOf cfg fns (ds.map (·.toIField)) vs, calls) := by
+    evalDict fns env1 (ds.map (fun d => (d.name, dvP cfg d)))
+      = .ok (dictOf cfg fns (ds.map (·.toIField)) vs, dictCalls cfg (ds.map (·.toIField)) vs) := by
   induction ds generalizing vs with
-  | nil => cases vs <;> exact ⟨[], rfl⟩
+  | nil => cases vs <;> rfl
   | cons d ds ih =>
     cases vs with
     | nil => simp at hlen
     | cons v vs =>
-      obtain ⟨c2, h2⟩ := ih vs (by simpa using hlen)
+      have h2 := ih vs (by simpa using hlen)
         (fun dv h => hl dv (by simp [List.zip_cons_cons, h]))
         (fun e he => hf e (List.mem_cons_of_mem _ he))
         (fun dv h => hc dv (by simp [List.zip_cons_cons, h]))
@@ -416,11 +416,13 @@ theorem evalDict_ok (cfg : Cfg) (fns : UserFns) (env1 : List (String × PV)) (ds
       simp only at hl0
       cases hser : cfg.serOfType (ofTypeRef d.type) with
       | none =>
-        refine ⟨[] ++ c2, ?_⟩
         have he : entryOf cfg fns d.toIField v = (if v.isUnset then PV.unset else argObj fns v) := by
           cases v <;> simp [entryOf, VarDecl.toIField, hser, AV.isUnset]
         have hd : dvP cfg d = .name (pyVar cfg.snake d.name) := by simp [dvP, hser]
-        simp only [List.map_cons, evalDict, hd, hl0, h2, dictOf, he]
+        have hc0 : dictCalls cfg (d.toIField :: ds.map (·.toIField)) (v :: vs) = [] ++ dictCalls cfg (ds.map (·.toIField)) vs := by
+          have : cfg.serOfType d.toIField.type = none := hser
+          cases v <;> simp [dictCalls, dictPart, this]
+        simp only [List.map_cons, evalDict, hd, hl0, h2, dictOf, he, hc0]
         rfl
       | some f =>
         obtain ⟨sc, j, hv⟩ := hc (d, v) (by simp [List.zip_cons_cons]) f hser
@@ -429,10 +431,13 @@ theorem evalDict_ok (cfg : Cfg) (fns : UserFns) (env1 : List (String × PV)) (ds
         have hfn := hf d List.mem_cons_self f hser
         have he : entryOf cfg fns d.toIField (.custom sc j) = .leaf (some (fns.ser f j)) := by
           simp [entryOf, VarDecl.toIField, hser, AV.isUnset]
-        refine ⟨[⟨f, .leaf (some j)⟩] ++ c2, ?_⟩
         simp only [AV.isUnset, Bool.false_eq_true, if_false, argObj, objOf] at hl0
         have hd : dvP cfg d = .call f (pyVar cfg.snake d.name) := by simp [dvP, hser]
-        simp only [List.map_cons, evalDict, hd, hfn, hl0, UserFns.apply, h2, dictOf, he]
+        have hc0 : dictCalls cfg (d.toIField :: ds.map (·.toIField)) (.custom sc j :: vs)
+            = [⟨f, .leaf (some j)⟩] ++ dictCalls cfg (ds.map (·.toIField)) vs := by
+          have : cfg.serOfType d.toIField.type = some f := hser
+          simp [dictCalls, dictPart, this]
+        simp only [List.map_cons, evalDict, hd, hfn, hl0, UserFns.apply, h2, dictOf, he, hc0]
         rfl
 
 end Ariadne.ArgProofs
